@@ -823,6 +823,32 @@ func fillPatch(g *Gen, op *Op, b []byte) {
 	case mode < 7: // data bit (objects and signatures)
 		if len(b) > tabEnd {
 			off := tabEnd + r.Intn(len(b)-tabEnd)
+			// objects whose bytes equal those of an earlier object (stored twice): aim at the later
+			// copy half of the time — anything keyed by digest value instead of by object shows here
+			type span struct{ off, n int }
+			var spans, later []span
+			for slot := 0; slot < total; slot++ {
+				o := 4096 + 585*slot
+				if o+33 <= len(b) && b[o+4] != 0 && !(b[o] == 0x05 && b[o+1] == 0x40) {
+					doff := int(int64(b[o+17]) | int64(b[o+18])<<8 | int64(b[o+19])<<16 | int64(b[o+20])<<24)
+					dsz := int(int64(b[o+25]) | int64(b[o+26])<<8 | int64(b[o+27])<<16)
+					if dsz > 0 && doff >= 0 && doff+dsz <= len(b) {
+						for _, e := range spans {
+							if e.n == dsz && bytes.Equal(b[e.off:e.off+e.n], b[doff:doff+dsz]) {
+								later = append(later, span{doff, dsz})
+								break
+							}
+						}
+						spans = append(spans, span{doff, dsz})
+					}
+				}
+			}
+			if len(later) > 0 && r.Chance(1, 2) {
+				sp := pick(r, later)
+				op.Sites = []PatchSite{flip(sp.off + r.Intn(sp.n))}
+				g.count("tamper:data-bit-in-duplicate-copy")
+				break
+			}
 			if r.Chance(2, 3) {
 				// aim inside the data of a used non-signature object (the last bytes of a copy)
 				slot := r.Intn(total)
